@@ -1059,12 +1059,15 @@ def listed_in_view(repo, col, R):
     corresponding global_*_index column of the view's own node table, and nothing derived from the local numbering (a view may hold any
     subset, e.g. cells [0, 2, 5]: `first + local` lists [0, 1, 2]).  The connectivity builders take their populations from these lists."""
     WRAP = {"asarray", "array", "to_numpy", "tolist", "to_list", "astype", "sort", "sorted", "list", "copy"}
-    for nm, colname in (("_cells_in_view", "global_cell_index"), ("_branches_in_view", "global_branch_index"), ("_comps_in_view", "global_comp_index")):
-        fi = repo.method("View", nm)
+    for cls_, nm, colname in [(c_, n_, k_) for c_ in ("Module", "View") for n_, k_ in (("_cells_in_view", "global_cell_index"),
+                              ("_branches_in_view", "global_branch_index"), ("_comps_in_view", "global_comp_index"))]:
+        if nm not in repo.cls(cls_).methods:
+            continue
+        fi = repo.cls(cls_).methods[nm]
         ex = idx.expander(repo, fi)
         r = ex.merged_return() if len(ex.returns) != 1 else ex.returns[0]
         if r is None:
-            raise AnalysisError(f"View.{nm} has no return value")
+            raise AnalysisError(f"{cls_}.{nm} has no return value")
         r = idx.inline(repo, fi, r, value_only=True)
         t = r
         uniq = False
@@ -1084,12 +1087,12 @@ def listed_in_view(repo, col, R):
             and t.args[0].args[0].name == "self" and t.args[1].op == "const"
         if column and uniq:
             ok = t.args[1].name == colname
-            col.check(ok, R, fi, f"View.{nm} lists the distinct values of the view's {colname} column", f"self.nodes['{colname}'].unique()",
+            col.check(ok, R, fi, f"{cls_}.{nm} lists the distinct values of the view's {colname} column", f"self.nodes['{colname}'].unique()",
                       f"lists the column {t.args[1].name!r}", node=fi.node)
         else:
             cols = sorted({str(x.args[1].name) for x in T.find_all(r, lambda x: x.op == "sub" and x.args[0].op == "attr" and x.args[0].name == "nodes" and x.args[1].op == "const")})
             derived = any(c.startswith("local_") for c in cols) or T.find(r, lambda x: x.op in ("bin", "binop", "arith") or (x.op == "call" and x.name in ("arange", "range"))) is not None
-            col.add(R, fi, f"View.{nm} lists the distinct values of the view's {colname} column", "VIOLATED" if derived else "UNDECIDED",
+            col.add(R, fi, f"{cls_}.{nm} lists the distinct values of the view's {colname} column", "VIOLATED" if derived else "UNDECIDED",
                     f"returns {r.short(110)} (columns {cols}): " + ("the global indices are reconstructed from other numbering, which is right only "
                     "for a contiguous range of cells / branches / compartments; a view may hold any subset (cells [0, 2, 5])" if derived else "form not recognised"),
                     node=fi.node)
